@@ -72,6 +72,8 @@ type genEnv struct {
 	labels                          []string // structExcl: the label set of every struct type of this case
 	// which exclusions shaped the case
 	usedMapExcl, usedStructExcl, usedTaggedExcl bool
+	// a tuple type was exchanged for one of its pair readings or the reverse (label gen:tuple-vs-pair)
+	usedTuplePair bool
 }
 
 func newEnv(t *rapid.T) *genEnv {
@@ -403,10 +405,14 @@ func (g *genEnv) related(sub TE, d int, p pos) TE {
 			add(3, func() TE { res := sub.clone(); res.A = append(res.A, g.leaf()); return res })
 		}
 	case kPair:
+		if isMixPos(sub) {
+			add(4, func() TE { return g.tuplePair(sub, d) })
+		}
 		add(2, func() TE { return pairT(sub.A[1].clone(), sub.A[0].clone()) })
 		add(2, func() TE { return tupleT(sub.A[0].clone(), sub.A[1].clone(), g.leaf()) })
 		add(1, func() TE { return sub.A[0].clone() })
 	case kTuple:
+		add(6, func() TE { return g.tuplePair(sub, d) })
 		if len(sub.A) < 5 {
 			add(3, func() TE { res := sub.clone(); res.A = append(res.A, g.leaf()); return res })
 		}
@@ -476,9 +482,176 @@ func (g *genEnv) related(sub TE, d int, p pos) TE {
 	return ops[rapid.IntRange(0, len(ops)-1).Draw(g.t, "relop")]()
 }
 
+// isMixPos tells whether sub is a tuple type or a pair type that reads like (part of) a tuple: a
+// component that is itself a pair type or /any.
+func isMixPos(sub TE) bool {
+	switch sub.K {
+	case kTuple:
+		return true
+	case kPair:
+		for _, a := range sub.A {
+			if a.K == kPair || (a.K == kBase && a.S == "/any") {
+				return true
+			}
+		}
+	}
+	return false
+}
+
+// nestRight is Pair(A, Pair(B, C)), the reading of Tuple(A, B, C) that membership uses; nestLeft is
+// Pair(Pair(A, B), C).
+func nestRight(cs []TE) TE {
+	res := pairT(cs[len(cs)-2], cs[len(cs)-1])
+	for j := len(cs) - 3; j >= 0; j-- {
+		res = pairT(cs[j], res)
+	}
+	return res
+}
+
+func nestLeft(cs []TE) TE {
+	res := pairT(cs[0], cs[1])
+	for _, c := range cs[2:] {
+		res = pairT(res, c)
+	}
+	return res
+}
+
+// step exchanges a component for a wider or narrower one of no greater depth.
+func (g *genEnv) step(c TE) TE {
+	if rapid.IntRange(0, 3).Draw(g.t, "stepany") == 0 {
+		return base("/any")
+	}
+	r := g.related(c, c.depth(), pos{})
+	if r.depth() > c.depth() {
+		return base("/any")
+	}
+	return r
+}
+
+// tuplePair relates the two spellings of a product of three or more types. For a tuple type
+// Tuple(A, B, C[, D]) it returns the right-nested pair type Pair(A, Pair(B, C)), the left-nested
+// Pair(Pair(A, B), C), Pair(A, /any) or Pair(/any, C); for a pair type with a pair type or /any as a
+// component the tuple type read off it (right-nested and left-nested reading). In half of the draws
+// one component is in addition exchanged for a wider or narrower one, so that conformance may hold
+// in either direction. The result has depth <= d (components that do not fit become /any).
+func (g *genEnv) tuplePair(sub TE, d int) TE {
+	g.usedTuplePair = true
+	isAny := func(x TE) bool { return x.K == kBase && x.S == "/any" }
+	var cs []TE
+	toTuple := false
+	switch sub.K {
+	case kTuple:
+		for _, a := range sub.A {
+			cs = append(cs, a.clone())
+		}
+	case kPair:
+		toTuple = true
+		a, b := sub.A[0], sub.A[1]
+		var forms [][]TE
+		if b.K == kPair { // right-nested reading
+			forms = append(forms, []TE{a, b.A[0], b.A[1]})
+			if b.A[1].K == kPair {
+				forms = append(forms, []TE{a, b.A[0], b.A[1].A[0], b.A[1].A[1]})
+			}
+		}
+		if a.K == kPair { // left-nested reading
+			forms = append(forms, []TE{a.A[0], a.A[1], b})
+			if a.A[0].K == kPair {
+				forms = append(forms, []TE{a.A[0].A[0], a.A[0].A[1], a.A[1], b})
+			}
+		}
+		if isAny(b) {
+			forms = append(forms, []TE{a, g.leaf(), g.leaf()})
+		}
+		if isAny(a) {
+			forms = append(forms, []TE{g.leaf(), g.leaf(), b})
+		}
+		if len(forms) == 0 {
+			forms = append(forms, []TE{a, b, g.leaf()})
+		}
+		for _, c := range forms[rapid.IntRange(0, len(forms)-1).Draw(g.t, "tupleform")] {
+			cs = append(cs, c.clone())
+		}
+	default:
+		return sub.clone()
+	}
+	if rapid.Bool().Draw(g.t, "stepcomponent") {
+		i := rapid.IntRange(0, len(cs)-1).Draw(g.t, "component")
+		cs[i] = g.step(cs[i])
+	}
+	fit := func(budget int) {
+		for i := range cs {
+			if cs[i].depth() > budget {
+				cs[i] = base("/any")
+			}
+		}
+	}
+	if toTuple {
+		fit(d - 1)
+		return tupleT(cs...)
+	}
+	n := len(cs)
+	form := rapid.IntRange(0, 5).Draw(g.t, "pairform")
+	if form < 4 && d < n-1 { // the nested readings do not fit
+		form += 2
+	}
+	switch form {
+	case 0, 1:
+		fit(d - (n - 1))
+		return nestRight(cs)
+	case 2, 3:
+		fit(d - (n - 1))
+		return nestLeft(cs)
+	case 4, 6:
+		fit(d - 1)
+		return pairT(cs[0], base("/any"))
+	default:
+		fit(d - 1)
+		return pairT(base("/any"), cs[n-1])
+	}
+}
+
+// tupleSeed draws a tuple type with shallow components (so that its pair readings stay within the
+// depth limit), bare or inside a list or union.
+func (g *genEnv) tupleSeed() TE {
+	n := rapid.IntRange(3, 4).Draw(g.t, "ntuple")
+	res := TE{K: kTuple}
+	for i := 0; i < n; i++ {
+		if n == 3 && rapid.IntRange(0, 3).Draw(g.t, "deepcomponent") == 0 {
+			res.A = append(res.A, g.te(1))
+		} else {
+			res.A = append(res.A, g.leaf())
+		}
+	}
+	if res.depth() > 1 {
+		return res
+	}
+	switch rapid.IntRange(0, 5).Draw(g.t, "wrap") {
+	case 0:
+		return listT(res)
+	case 1:
+		return union(res, g.leaf())
+	}
+	return res
+}
+
 // derive exchanges one sub-expression of b for a related one.
 func (g *genEnv) derive(b TE) TE {
 	ps := g.positions(b)
+	// a third of the derivations of a type with a tuple (or nested pair) inside go to that position
+	var mix []pos
+	for _, p := range ps {
+		if !p.variant && !(p.key && g.mapExcl) && isMixPos(at(b, p.path)) {
+			mix = append(mix, p)
+		}
+	}
+	if len(mix) > 0 && rapid.IntRange(0, 2).Draw(g.t, "tuple-vs-pair?") == 0 {
+		p := mix[rapid.IntRange(0, len(mix)-1).Draw(g.t, "mixposition")]
+		res := replaceAt(b, p.path, g.tuplePair(at(b, p.path), maxDepth-len(p.path)))
+		if res.depth() <= maxDepth {
+			return res
+		}
+	}
 	p := ps[rapid.IntRange(0, len(ps)-1).Draw(g.t, "position")]
 	r := g.related(at(b, p.path), maxDepth-len(p.path), p)
 	res := replaceAt(b, p.path, r)
@@ -521,9 +694,10 @@ func (g *genEnv) sanitize(te TE) TE {
 var modes = []string{modeCtor, modeCtor, modeCtor, modeFn, modeDot, modeMixed}
 
 type genInfo struct {
-	excluded []string
-	derived  int
-	copies   int
+	excluded  []string
+	derived   int
+	copies    int
+	tuplePair bool
 }
 
 func genCase(t *rapid.T) (Case, genInfo) {
@@ -531,7 +705,11 @@ func genCase(t *rapid.T) (Case, genInfo) {
 	var info genInfo
 	n := rapid.IntRange(2, 4).Draw(t, "ntypes")
 	var tes []TE
-	tes = append(tes, g.te(maxDepth))
+	if rapid.IntRange(0, 7).Draw(t, "tuplefirst") == 0 {
+		tes = append(tes, g.tupleSeed())
+	} else {
+		tes = append(tes, g.te(maxDepth))
+	}
 	for i := 1; i < n; i++ {
 		from := tes[rapid.IntRange(0, i-1).Draw(t, "from")]
 		switch r := rapid.IntRange(0, 9).Draw(t, "how"); {
@@ -549,6 +727,7 @@ func genCase(t *rapid.T) (Case, genInfo) {
 	for _, te := range tes {
 		c.Types = append(c.Types, TypeSpec{Mode: modes[rapid.IntRange(0, len(modes)-1).Draw(t, "mode")], T: g.sanitize(te)})
 	}
+	info.tuplePair = g.usedTuplePair
 	if g.usedMapExcl {
 		info.excluded = append(info.excluded, exclMapKey)
 	}
